@@ -2,6 +2,12 @@
 B = "core/BoundedSPSCQueue.h"
 U = "core/UnboundedSPSCQueue.h"
 CASES = [
+ dict(name="b-c19-json-newlines-std-replace", ids=["C19", "C10"], subs=[("sinks/JsonSink.h", """      for (size_t pos = 0; (pos = _format.find('\\n', pos)) != std::string::npos; pos++)
+      {
+        _format.replace(pos, 1, " ");
+      }
+""", """      std::replace(_format.begin(), _format.end(), '\\n', ' ');
+"""), ("sinks/JsonSink.h", "#include <string>", "#include <algorithm>\n#include <string>")]),
  dict(name="b-c15-datetime-memo-keyed-on-all-arguments", ids=["C15", "C14"], subs=[("sinks/FileSink.h", """    // convert to seconds
     auto const time_now = static_cast<time_t>(timestamp_ns / 1000000000);
     tm now_tm;
@@ -32,7 +38,7 @@ CASES = [
 
     return std::string{buffer};""")]),
  dict(name="b-c12-process-id-set-in-init", ids=["C12"], subs=[("backend/BackendWorker.h", "  BackendWorker() { _process_id = std::to_string(get_process_id()); }", "  BackendWorker() {}"),
-    ("backend/BackendWorker.h", "    _options = options;\n\n    // Cache this thread's id", "    _options = options;\n    _process_id = std::to_string(get_process_id());\n\n    // Cache this thread's id")]),
+    ("backend/BackendWorker.h", "    _options = options;\n\n    if (!_options.error_notifier)", "    _options = options;\n    _process_id = std::to_string(get_process_id());\n\n    if (!_options.error_notifier)")]),
  dict(name="b-c16-consolesink-takes-notifier", ids=["C16", "C12"], subs=[("sinks/ConsoleSink.h", """  explicit ConsoleSink(ConsoleSinkConfig const& config = ConsoleSinkConfig{})
     : StreamSink{config.stream(), nullptr, config.override_pattern_formatter_options()}, _config(config)""", """  explicit ConsoleSink(ConsoleSinkConfig const& config = ConsoleSinkConfig{},
                        FileEventNotifier file_event_notifier = FileEventNotifier{})
